@@ -59,3 +59,6 @@ PROPS['C17'] = {'level': 'proof', 'theorems': [], 'campaigns': [camp('staking', 
 PROPS['C18'] = {'level': 'proof', 'theorems': [], 'campaigns': [camp('staking', 24, 200), camp('ledger', 8, 100)]}
 PROPS['C19'] = {'level': 'proof', 'theorems': [], 'campaigns': [camp('staking', 24, 200), camp('ledger', 8, 100)]}
 PROPS['C20'] = {'level': 'proof', 'theorems': [], 'campaigns': [camp('staking', 24, 200)]}
+
+for _p in ['C06','C15','C22','C27']:
+    PROPS[_p] = {'level': 'proof', 'theorems': [], 'campaigns': [camp('checktx', 12, 100), camp('orders', 12, 100), camp('ledger', 8, 100)]}
